@@ -216,7 +216,11 @@ def otsvg_checks(prop, glyphs, cfg, font, G=24):
             out.append(bad(f"{prop}.one-element", f"{n_el} elements with id {eid} in the document covering gid {gid}"))
             continue
         delta = 2.0 * _use_scale(pic.ids[eid]) + (cfg.reuse_tolerance if cfg.reuse_tolerance > 0 else 0)
-        stats = compare_glyph(g, cfg, adv, lambda p: pic.at_element(eid, (p[0], -p[1])), delta, G=G)
+        try:
+            stats = compare_glyph(g, cfg, adv, lambda p: pic.at_element(eid, (p[0], -p[1])), delta, G=G)
+        except KeyError as e:
+            out.append(bad(f"{prop}.reference-resolves", f"glyph {name} gid {gid}: reference to {e} does not resolve inside the document that covers it"))
+            continue
         for k in tot:
             tot[k] += stats[k]
         inconcl += len(stats["inconclusive_layers"])
